@@ -39,9 +39,11 @@ class ListenerPool:
         if self.flags.unix_socket_path:
             self.add(UnixSocketListener)
         hostnames = {self.flags.hostname, *self.flags.hostnames}
+        # The primary port comes first: Proxy.setup reads the primary
+        # listener at the head of the pool and the additional ones after it.
         ports = list(self.flags.ports)
         if not self.flags.unix_socket_path:
-            ports.append(self.flags.port)
+            ports.insert(0, self.flags.port)
         for hostname, port in itertools.product(hostnames, ports):
             self.add(TcpSocketListener, hostname=hostname, port=port)
 
